@@ -140,8 +140,7 @@ func (w *World) stepHandles(st string) bool {
 				continue
 			}
 			n++
-			it.Next()
-			it.Next()
+			it.Next() // one step only: the lower-level part of the iterator must not be exhausted yet
 			it.SeekTo([]byte(""))
 			it.Current()
 			it.Close()
